@@ -313,6 +313,7 @@ func c13Direct(r *Rng, tier string, o *Out) {
 	pb := "pb 0"
 	var prows, pcols, brows, bcols int
 	var proj, basis []float64
+	incompatible := false
 	if r.Chance(45) {
 		k := r.Range(1, 8)
 		if n > 700 {
@@ -320,6 +321,7 @@ func c13Direct(r *Rng, tier string, o *Out) {
 		}
 		prows, pcols, brows, bcols = k, n, n, k
 		if r.Chance(12) { // incompatible shapes: SetProjectorsBasis must refuse them
+			incompatible = true
 			switch r.Intn(4) {
 			case 0:
 				pcols = n + r.Pick(-1, 1, 2)
@@ -379,8 +381,26 @@ func c13Direct(r *Rng, tier string, o *Out) {
 		cfgNsamp = n
 	}
 	in := append([]dastard.RawType{}, data...)
-	rec, setErr := dastard.VerifAnalyzeRecord(cfgNpre, cfgNsamp, npre, signed, in, prows, pcols, proj, brows, bcols, basis)
-	o.Case("src direct-%s npre %d cfgnpre %d nsamp %d signed %d data %s %s %s", kind, npre, cfgNpre, cfgNsamp, b2i(signed), ints(data), pb, c13Out(rec, setErr))
+	src := "direct-" + kind
+	if incompatible { // a fresh processor whose first request must be refused: a one-request history
+		src = fmt.Sprintf("hist-after-refused:direct-%s:first-request:load(%dx%d,%dx%d)=refused;A", kind, prows, pcols, brows, bcols)
+	}
+	out := c13Guard(func() string {
+		rec, setErr := dastard.VerifAnalyzeRecord(cfgNpre, cfgNsamp, npre, signed, in, prows, pcols, proj, brows, bcols, basis)
+		return c13Out(rec, setErr)
+	})
+	o.Case("src %s npre %d cfgnpre %d nsamp %d signed %d data %s %s %s", src, npre, cfgNpre, cfgNsamp, b2i(signed), ints(data), pb, out)
+}
+
+// c13Guard runs an analysis of the real code; a panic in it (AnalyzeData runs in the calling goroutine) becomes the
+// observed output `OUT PANIC <class>` instead of ending the harness.
+func c13Guard(f func() string) (res string) {
+	defer func() {
+		if e := recover(); e != nil {
+			res = "OUT PANIC " + panicClass("panic: "+fmt.Sprint(e))
+		}
+	}()
+	return f()
 }
 
 // c13Pipe: records published by the real pipeline (PrepareRun, ConfigureProjectorsBases, ProcessSegments ->
@@ -684,9 +704,12 @@ func c13DCFree(r *Rng, tier string, o *Out) {
 		data[j] = dastard.RawType((int(data[j]) + r.Pick(-1, 1) + 65536) % 65536)
 	}
 	in := append([]dastard.RawType{}, data...)
-	rec, setErr := dastard.VerifAnalyze(npre, n, signed, in, k, n, proj, n, k, basis)
+	out := c13Guard(func() string {
+		rec, setErr := dastard.VerifAnalyze(npre, n, signed, in, k, n, proj, n, k, basis)
+		return c13Out(rec, setErr)
+	})
 	o.Case("src direct-dcfree npre %d cfgnpre %d nsamp %d signed %d data %s %s %s", npre, npre, n, b2i(signed), ints(data),
-		c13Mats(k, n, proj, n, k, basis), c13Out(rec, setErr))
+		c13Mats(k, n, proj, n, k, basis), out)
 }
 
 // c13Balanced: records that hit exact-zero intermediate values of AnalyzeData (ptm == 0, sum == 0, rms == 0,
@@ -797,15 +820,24 @@ func c13Balanced(r *Rng, tier string, o *Out) {
 		pb = c13Mats(k, n, proj, n, k, basis)
 	}
 	in := append([]dastard.RawType{}, data...)
-	rec, setErr := dastard.VerifAnalyze(npre, n, signed, in, prows, pcols, proj, brows, bcols, basis)
-	o.Case("src direct-zero-%s npre %d cfgnpre %d nsamp %d signed %d data %s %s %s", name, npre, npre, n, b2i(signed), ints(data), pb, c13Out(rec, setErr))
+	out := c13Guard(func() string {
+		rec, setErr := dastard.VerifAnalyze(npre, n, signed, in, prows, pcols, proj, brows, bcols, basis)
+		return c13Out(rec, setErr)
+	})
+	o.Case("src direct-zero-%s npre %d cfgnpre %d nsamp %d signed %d data %s %s %s", name, npre, npre, n, b2i(signed), ints(data), pb, out)
 }
 
-// c13History: several requests on ONE processor.  A model A is loaded and a record analysed; then further requests -
-// a revised model of the SAME shape under the SAME description (different content), the same under another
-// description, a model with another number of components, an incompatible one (refused: the old one stays), removal
-// and re-loading, a pulse-length request (same lengths: model kept; other lengths: model dropped) - each followed by
-// the analysis of a new record.  Each analysis is one case whose model is the LAST one the real code reported as loaded.
+// c13History: several requests on ONE processor, each followed by the analysis of a new record: a model A, a revised
+// model of the SAME shape under the SAME description (different content), the same under another description, a
+// model with another number of components, REFUSED requests of every kind (projectors of the wrong width; good
+// projectors with a basis of the wrong height; good projectors with a basis of the wrong width; with the same or
+// another number of components as the loaded model; also as the very FIRST request, when nothing is loaded), removal
+// and re-loading, a pulse-length request (same lengths: model kept; other lengths: model dropped).
+// Each analysis is one case; its model (`pb`) is the LAST ACCEPTED one (the last request the real code answered without
+// an error), or none.  The `src` token spells out the history so far, e.g.
+// hist:load(3x20,20x3)=ok;A;load(3x20,19x3)=refused;A - the case line plus that history is the failing input.  A case that
+// follows a refused request starts with `hist-after-refused:`.  A panic inside AnalyzeData is caught and reported as
+// `OUT PANIC <class>`.
 func c13History(r *Rng, tier string, o *Out) {
 	npre := r.Pick(3, 4, 6, r.Range(3, 40))
 	npost := r.Pick(1, 3, 8, r.Range(1, 80))
@@ -816,66 +848,121 @@ func c13History(r *Rng, tier string, o *Out) {
 	curK := 0
 	desc := r.Intn(3)
 	descs := []string{"verif", "", "model made 2026-09-28, 3 components"}
-	load := func(k, rows int, d string) bool { // rows = number of projector columns = basis rows
+	var hist []string
+	afterRefused := false
+	// request hands projectors (pr x pc) and a basis (br x bc) to the real SetProjectorsBasis
+	request := func(pr, pc, br, bc int, d string) bool {
 		var proj, basis []float64
-		if rows == n {
-			proj, basis = c13Matrices(r, k, n)
+		if pr >= 1 && pc == n && br == n && bc == pr {
+			proj, basis = c13Matrices(r, pr, n)
 		} else {
-			proj = make([]float64, k*rows)
-			basis = make([]float64, rows*k)
+			proj = make([]float64, pr*pc)
+			basis = make([]float64, br*bc)
 			for i := range proj {
-				proj[i] = float64(r.Range(-2, 2))
+				proj[i] = float64(r.Range(-2, 2)) + float64(r.Intn(8))/8
 			}
 			for i := range basis {
-				basis[i] = float64(r.Range(-2, 2))
+				basis[i] = float64(r.Range(-2, 2)) + float64(r.Intn(8))/8
 			}
 		}
-		if err := vp.SetProjectorsBasis(k, rows, proj, rows, k, basis, d); err != nil {
+		err := vp.SetProjectorsBasis(pr, pc, proj, br, bc, basis, d)
+		if err != nil {
+			hist = append(hist, fmt.Sprintf("load(%dx%d,%dx%d)=refused", pr, pc, br, bc))
+			afterRefused = true
 			return false
 		}
-		cur = c13Mats(k, rows, proj, rows, k, basis)
-		curK = k
+		hist = append(hist, fmt.Sprintf("load(%dx%d,%dx%d)=ok", pr, pc, br, bc))
+		afterRefused = false
+		cur = c13Mats(pr, pc, proj, br, bc, basis)
+		curK = pr
 		return true
+	}
+	load := func(k int, d string) bool { return request(k, n, n, k, d) }
+	// refuse makes a request that SetProjectorsBasis must refuse, of one of the three kinds, with nbases k
+	refuse := func(k int) {
+		switch r.Intn(4) {
+		case 0: // projectors of the wrong width (basis consistent with them)
+			w := n + r.Pick(-1, 1, 2)
+			request(k, w, w, k, descs[desc])
+		case 1: // good projectors, basis of the wrong height
+			request(k, n, n+r.Pick(-1, 1, 3), k, descs[desc])
+		case 2: // good projectors, basis of the wrong width
+			request(k, n, n, k+r.Pick(1, 2), descs[desc])
+		default: // good projectors, basis transposed (wrong height and, unless k == n, wrong width)
+			if k == n {
+				request(k, n, n+1, k, descs[desc])
+			} else {
+				request(k, n, k, n, descs[desc])
+			}
+		}
 	}
 	analyse := func(step string) {
 		data, kind := c13Record(r, n, npre, signed, -1)
 		in := append([]dastard.RawType{}, data...)
-		rec := vp.Analyze(npre, signed, in)
-		o.Case("src hist-%s:%s npre %d cfgnpre %d nsamp %d signed %d data %s %s %s", step, kind, npre, npre, n, b2i(signed), ints(data), cur, c13Out(rec, false))
+		hist = append(hist, "A")
+		prefix := "hist"
+		if afterRefused {
+			prefix = "hist-after-refused"
+		}
+		out := c13Guard(func() string { return c13Out(vp.Analyze(npre, signed, in), false) })
+		o.Case("src %s:%s:%s:%s npre %d cfgnpre %d nsamp %d signed %d data %s %s %s", prefix, step, kind, strings.Join(hist, ";"),
+			npre, npre, n, b2i(signed), ints(data), cur, out)
 	}
 	k := r.Range(1, 8)
-	load(k, n, descs[desc])
+	if r.Chance(30) { // a refused request as the very first one: nothing is loaded, nothing may be analysed with it
+		refuse(k)
+		analyse("refused-first")
+		if r.Chance(50) {
+			refuse(r.Range(1, 8))
+			analyse("refused-again")
+		}
+	}
+	load(k, descs[desc])
 	analyse("first")
-	steps := r.Range(1, 3)
+	steps := r.Range(1, 4)
 	for st := 0; st < steps; st++ {
 		kk := curK
 		if kk == 0 {
 			kk = k
 		}
-		switch r.Intn(9) {
+		switch r.Intn(12) {
 		case 0, 1, 2:
-			load(kk, n, descs[desc])
+			load(kk, descs[desc])
 			analyse("same-shape-same-desc")
 		case 3:
 			desc = (desc + 1) % len(descs)
-			load(kk, n, descs[desc])
+			load(kk, descs[desc])
 			analyse("same-shape-other-desc")
 		case 4:
-			load(r.Range(1, 8), n, descs[desc])
+			load(r.Range(1, 8), descs[desc])
 			analyse("other-nbases")
-		case 5:
-			load(r.Range(1, 4), n+r.Pick(-1, 1, 2), descs[desc]) // must be refused; if it is accepted the model disagrees (seterr)
-			analyse("refused-keeps-old")
-		case 6:
+		case 5, 6: // refused, same number of components as the loaded model: the loaded model stays
+			refuse(kk)
+			analyse("refused-same-nbases")
+		case 7, 8: // refused, another number of components
+			nk := r.Range(1, 8)
+			if nk == kk {
+				nk = kk%8 + 1
+			}
+			refuse(nk)
+			analyse("refused-other-nbases")
+		case 9:
 			vp.RemoveProjectorsBasis()
+			hist = append(hist, "remove")
+			afterRefused = false
 			cur, curK = "pb 0", 0
 			analyse("removed")
-			load(k, n, descs[desc]) // the same description after a removal must load again
+			if r.Chance(40) {
+				refuse(k)
+				analyse("refused-after-removal")
+			}
+			load(k, descs[desc]) // the same description after a removal must load again
 			analyse("reloaded-after-removal")
-		case 7:
+		case 10:
 			if err := vp.ConfigurePulseLengths(n, npre); err != nil {
 				panic(err)
 			}
+			hist = append(hist, "lengths(same)")
 			analyse("same-lengths-keep-model")
 		default:
 			npre2 := npre + r.Pick(-1, 1, 2)
@@ -886,10 +973,12 @@ func c13History(r *Rng, tier string, o *Out) {
 			if err := vp.ConfigurePulseLengths(n2, npre2); err != nil {
 				panic(err)
 			}
+			hist = append(hist, fmt.Sprintf("lengths(%d,%d)", n2, npre2))
+			afterRefused = false
 			npre, n = npre2, n2
 			cur, curK = "pb 0", 0
 			analyse("new-lengths-drop-model")
-			load(r.Range(1, 8), n, descs[desc])
+			load(r.Range(1, 8), descs[desc])
 			analyse("loaded-after-new-lengths")
 		}
 	}
@@ -902,7 +991,7 @@ func genC13(r *Rng, tier string, o *Out) {
 		n = 2500
 	}
 	for o.n < n {
-		if r.Chance(6) {
+		if r.Chance(8) {
 			c13History(r, tier, o)
 		} else if r.Chance(10) {
 			c13Balanced(r, tier, o)
